@@ -89,7 +89,7 @@ class CU:
         E = self.E()
         O = 'Q' if self.fmt == 64 else 'I'
         if self.version < 5:
-            hdr = struct.pack(E + 'H' + O + 'B', self.version, abbrev_base, self.asz)
+            hdr = struct.pack(E + 'H' + O + 'B', self.version, abbrev_base, self.asz) + self.header_extra
         else:
             hdr = struct.pack(E + 'HBB' + O, self.version, self.unit_type, self.asz, abbrev_base) + self.header_extra
         if self.fmt == 64:
@@ -112,8 +112,9 @@ def op_variants(op, spec, le, asz, osz=4):
     big = {'u1': 0xff, 's1': -3, 'u2': 0xffff, 's2': -300, 'u4': 0xffffffff, 's4': -70000, 'u8': 2 ** 64 - 1, 's8': -2 ** 33,
            'uleb': 300, 'sleb': -16, 'addr': 2 ** (8 * asz) - 16, 'off': 0x2b, 'ref4': 0x2b}
     W = {'u1': 1, 's1': 1, 'u2': 2, 's2': 2, 'u4': 4, 's4': 4, 'u8': 8, 's8': 8}
+    zero = {k: 0 for k in small}        # 0 is special for several operands (generic type, no offset)
     outs = []
-    for vals in (small, big):
+    for vals in (small, big, zero):
         b = bytearray([op])
         for k in spec:
             if k in W:
@@ -138,6 +139,8 @@ def op_variants(op, spec, le, asz, osz=4):
                 b += (bytes([0]) + uleb(3)) if vals is small else (bytes([3]) + (7).to_bytes(4, order))
             else:
                 raise ValueError(k)
+        if vals is zero and not any(k in zero for k in spec):
+            break               # no scalar operand: the third variant would repeat the second
         outs.append(bytes(b))
         if not spec:
             break
